@@ -26,7 +26,8 @@ import scen
 TARGETS = [{"path": "app"}, {"path": "app2", "uses": ["shared"]}, {"path": "lib", "ignores": ["lib/docs"]},
            {"path": "dir with space"}, {"path": "ünï"}, {"path": "lib/core"}]
 DIRS = ["app", "app2", "lib", "lib/docs", "lib/core", "dir with space", "ünï", "shared", "misc"]
-NAMES = ["f.txt", "a b.txt", "é.rs", "q\"uote.md", "tab\there", "-dash", "sub/deep/x.c", "x.log", "g.go"]
+NAMES = ["f.txt", "a b.txt", "é.rs", "q\"uote.md", "tab\there", "-dash", "sub/deep/x.c", "x.log", "g.go", "back\\slash.txt",
+         "docs\\x.md"]
 
 
 def sha256_file(p):
@@ -43,7 +44,13 @@ class History:
         self.rng = scen.Rng(seed)
         self.seed = seed
         self.prop = prop
-        self.repo = scen.Repo(TARGETS, git=True)
+        out_dir = None
+        if seed % 5 == 0:
+            # an output directory given as an absolute path outside the repository (or with `..`)
+            base = os.path.join(scen.scratch_root(), "out-%d" % (seed % 1000003))
+            os.makedirs(base, exist_ok=True)
+            out_dir = base if seed % 10 == 0 else os.path.join("..", os.path.basename(base))
+        self.repo = scen.Repo(TARGETS, git=True, out_dir=out_dir)
         r = self.repo
         for t in TARGETS:
             r.install(t["path"], "build")
@@ -153,6 +160,29 @@ class History:
         self.shas.append(self.repo.git("rev-parse", "HEAD").strip())
         self.events.append(["commit"])
         self.log.append("git commit")
+
+    def op_amend(self):
+        """rewrite the tip commit: the checkpoint may then name a commit that is no ancestor of HEAD;
+        what is reported is a difference of trees, so for the model this is just another commit"""
+        self.repo.git("commit", "-q", "--amend", "--allow-empty", "-m", "amended %d" % len(self.shas))
+        self.shas.append(self.repo.git("rev-parse", "HEAD").strip())
+        self.events.append(["commit"])
+        self.log.append("git commit --amend")
+
+    def op_touch(self):
+        """a tracked file gets a new timestamp (or is rewritten with the same bytes): not a change"""
+        ex = [p for p in self.existing_files() if p in self.index_paths()]
+        if not ex:
+            return
+        p = self.rng.pick(ex)
+        full = os.path.join(self.repo.dir, p)
+        if self.rng.chance(1, 2):
+            data = open(full, "rb").read()
+            with open(full, "wb") as f:
+                f.write(data)
+        t = time.time() - self.rng.pick([7, 3600, -5])
+        os.utime(full, (t, t))
+        self.log.append("touch %r" % p)
 
     # --- ground truth from git plumbing the implementation does not use ------------------------
     def tree_of(self, sha):
@@ -293,6 +323,17 @@ def run_history(seed, prop, model, rep, length):
             if fail("C02", "reported changes are not exactly the difference from the checkpoint", reported=got, expected=want,
                     begin=bi, end=ei, checkpoint=ck):
                 return True
+        # C01 end to end: the targets reported next to these changes are the ones the documented
+        # mapping gives for exactly this change list (names with spaces, backslashes, multi-byte
+        # characters reach the mapping as git hands them over)
+        if "targets" in j:
+            a = model.ask({"op": "c01", "targets": [{"path": t["path"], "uses": t.get("uses", []), "ignores": t.get("ignores", [])} for t in TARGETS],
+                           "changes": want, "k": 50})
+            exp_t = (a["model"].get("ok") or {}).get("targets")
+            if exp_t is not None and j.get("targets") != exp_t:
+                if fail("C01", "analyze output violates the change-to-target specification", reported_targets=j.get("targets"),
+                        expected_targets=exp_t, changes=want[:20], begin=bi, end=ei):
+                    return True
         ans = ask_model([["changes", bi, ei]])
         if ans[-1] != got:
             if fail("MODEL", "model and implementation change sets differ", model=ans[-1], implementation=got, begin=bi, end=ei):
@@ -338,7 +379,12 @@ def run_history(seed, prop, model, rep, length):
             elif k < 58:
                 h.op_add()
             elif k < 66:
-                h.op_commit()
+                if len(h.shas) > 1 and rng.chance(1, 6):
+                    h.op_amend()
+                elif rng.chance(1, 6):
+                    h.op_touch()
+                else:
+                    h.op_commit()
             elif k < 80:
                 # checkpoint update
                 args = ["checkpoint", "update"]
@@ -558,9 +604,25 @@ def huge_pending_case(seed, prop, rep):
             else:
                 rep.count("violations_of_C19")
             return
-        rc3, j3, out3, err3 = r.mono("analyze", "--changes", timeout=180)
+        # with a modest limit on open files, as in a container or under a build system
+        import resource
+        import subprocess as _sp
+
+        def low_nofile():
+            soft, hard = resource.getrlimit(resource.RLIMIT_NOFILE)
+            resource.setrlimit(resource.RLIMIT_NOFILE, (min(256, hard), hard))
+        pr = _sp.run([scen.MONORAIL, "-f", r.cfg_path, "analyze", "--changes"], cwd=r.dir, env=r.env(), stdin=_sp.DEVNULL,
+                     stdout=_sp.PIPE, stderr=_sp.PIPE, timeout=300, preexec_fn=low_nofile)
+        rc3, err3 = pr.returncode, pr.stderr.decode("utf-8", "replace")
+        try:
+            j3 = json.loads(pr.stdout.decode("utf-8", "replace").strip().split("\n")[-1]) if pr.stdout.strip() else None
+        except ValueError:
+            j3 = None
         if rc3 != 0 or j3 is None or j3.get("targets") or j3.get("changes"):
-            if prop == "C07":
+            if prop == "C02":
+                rep.oracle_fail({"kind": "reported changes are not exactly the difference from the checkpoint", "case": case, "rc": rc3,
+                                 "reported": len((j3 or {}).get("changes", [])), "expected": 0, "stderr": err3[-300:]})
+            elif prop == "C07":
                 rep.oracle_fail({"kind": "something is still changed right after checkpoint update --pending", "case": case, "rc": rc3,
                                  "targets": (j3 or {}).get("targets"), "stderr": err3[-300:]})
             else:
@@ -591,7 +653,7 @@ def main():
     for _ in range(n):
         cases.append((rng.next(), rng.range(10, 30) if args["tier"] == "quick" else rng.range(15, 80)))
     scen.run_cases(lambda c: run_history(c[0], prop, model, rep, c[1]), cases, rep, 12)
-    if args["budget"] > 0 and prop in ("C19", "C07"):
+    if args["budget"] > 0 and prop in ("C19", "C07", "C02"):
         scen.run_cases(lambda sd: huge_pending_case(sd, prop, rep), [rng.next() for _ in range(3 if args["tier"] == "thorough" else 1)], rep, 2)
     scen.finish(args, rep, t0, model)
 
